@@ -5,7 +5,9 @@
  *
  * One process = one poll method (IV_EXCLUDE_POLL_METHOD) and a range of cases.
  */
+#ifndef _GNU_SOURCE
 #define _GNU_SOURCE
+#endif
 #include <errno.h>
 #include <fcntl.h>
 #include <poll.h>
@@ -33,7 +35,7 @@ static const char *kname[] = { "fd", "timer", "task", "event", "raw", "sig" };
 enum { B_IN, B_OUT, B_ERR };
 static const char *bname[] = { "in", "out", "err" };
 
-#define MAXOBJ	1024
+#define MAXOBJ	70000
 #define MAXCHAN	24
 #define MAXFDN	4096
 
@@ -43,6 +45,7 @@ struct obj {
 	unsigned	gen;
 	int		registered;	/* shadow */
 	int		reaper;
+	int		driver;		/* population driver task */
 	/* fd */
 	int		osfd, chan, side;
 	int		hvar[3];	/* installed handler variant per band, 0 = NULL */
@@ -57,8 +60,10 @@ struct obj {
 	int		fired;
 	uint64_t	reg_seq;
 	long		due_seen_iter;	/* first wait entry at which expires <= V was observed, -1 none */
+	int		regpos;		/* position in reglist[kind] while registered */
 	/* task */
 	long		ran_iter;
+	long		init_in_task_round;	/* iteration in which a task handler initialised this task, -100 otherwise */
 	/* event / raw / sig */
 	long		posts, entries;
 	int		signum;
@@ -74,6 +79,9 @@ struct chan {
 
 static struct obj objs[MAXOBJ];
 static int nobjs;
+/* indices of the registered objects (shadow), per kind, for cheap scans */
+static int *reglist[K_NKIND];
+static int nreg[K_NKIND], nreg_total;
 static struct chan chans[MAXCHAN];
 static int nchans;
 static int fd2chan[MAXFDN], fd2side[MAXFDN];	/* OS descriptor -> channel end */
@@ -93,13 +101,16 @@ static int winding;			/* 0 normal, 1 budget exhausted, 2 reaper ran */
 static int reap_triggered;
 static int reaper_obj = -1;
 static uint64_t evseq;			/* event sequence number */
-static uint64_t trace_hash, sig_hash;
+static uint64_t trace_hash;
+static int pop_mode, pop_big;
+static int in_task_handler;
+static void pop_expiry(struct timespec *ts);
 static long round_start_iter = -1;
 static uint64_t round_start_seq;
 static int stim_applied_iter;
 static int spin_events, spin_zero;
 static int empty_shadow_waits;
-static int eintr_this_iter;
+static int eintr_this_iter, eintr_natural;
 static short snapE[MAXFDN], snapS[MAXFDN];	/* poll(2) revents at wait entry / after wait return */
 static int last_wait_ret_events;
 static long last_wait_timeout_zero;
@@ -111,7 +122,7 @@ static int dead_fd = -1, reg_file_fd = -1;
 
 /* non-triviality flags per case */
 static int nt_c01, nt_c02, nt_c03, nt_c04, nt_c05, nt_c06, nt_c07;
-static int tfd_engaged;
+static int tfd_engaged, case_max_timers;
 
 /* global stats */
 static struct {
@@ -119,7 +130,7 @@ static struct {
 		 task_entries_checked, unreg_of_due, handler_changes, reinstall_while_ready, tfd_engaged_cases,
 		 multi_timer_iters, failed_reg, quits, reenters, deadline_checks, rk_nonempty, b_obligations,
 		 nt[8], eintr_seen, sig_raised, ev_posts, raw_posts, actions, frees_in_handler, struct_reuse,
-		 hyg_checks, stim_applied, max_timers;
+		 hyg_checks, stim_applied, max_timers, pop_cases, pop_max;
 } S;
 
 #define MAXSIGH 4096
@@ -161,21 +172,35 @@ static void th(uint64_t a, uint64_t b, uint64_t c)
 	trace_hash = hash_step(trace_hash, a * 1000003 + b * 1009 + c);
 }
 
-static void *cookie_of(int o) { return (void *)(uintptr_t)((((uintptr_t)objs[o].gen) << 12) | (unsigned)o) + 1; }
+static void *cookie_of(int o) { return (void *)(uintptr_t)((((uintptr_t)objs[o].gen) << 17) | (unsigned)o) + 1; }
 
 static int cookie_obj(void *c, unsigned *gen)
 {
 	uintptr_t v = (uintptr_t)c - 1;
-	*gen = (unsigned)(v >> 12);
-	return (int)(v & 4095);
+	*gen = (unsigned)(v >> 17);
+	return (int)(v & 131071);
 }
 
-static int shadow_count(void)
+static int shadow_count(void) { return nreg_total; }
+
+static void set_registered(int o, int on)
 {
-	int i, n = 0;
-	for (i = 0; i < nobjs; i++)
-		n += objs[i].registered;
-	return n;
+	struct obj *ob = &objs[o];
+	int k = ob->kind;
+
+	if (ob->registered == on)
+		return;
+	ob->registered = on;
+	if (on) {
+		ob->regpos = nreg[k];
+		reglist[k][nreg[k]++] = o;
+		nreg_total++;
+	} else {
+		int last = reglist[k][--nreg[k]];
+		reglist[k][ob->regpos] = last;
+		objs[last].regpos = ob->regpos;
+		nreg_total--;
+	}
 }
 
 static void fatal_msg(const char *msg)
@@ -338,6 +363,7 @@ static int obj_new(int kind)
 	o->osfd = -1;
 	o->due_seen_iter = -1;
 	o->ran_iter = -100;
+	o->init_in_task_round = -100;
 	for (b = 0; b < 3; b++) {
 		o->entered_iter[b] = -100;
 		o->excuse_iter[b] = -100;
@@ -372,7 +398,7 @@ static void mark_unreg_shadow(int o)
 	struct obj *ob = &objs[o];
 	int b;
 
-	ob->registered = 0;
+	set_registered(o, 0);
 	ob->gen++;
 	if (ob->kind == K_FD) {
 		for (b = 0; b < 3; b++) {
@@ -473,12 +499,13 @@ static int pick_free_end(int *cp, int *sp)
 static int fd_register(int c, int s, int reuse_o, int use_try, int hv[3])
 {
 	struct iv_fd *f;
-	int o, b, ret = 0;
+	int o, b, ret = 0, skip_init = 0;
 
 	if (reuse_o >= 0) {
 		o = reuse_o;
 		S.struct_reuse++;
 		nt_c03 = 1;
+		skip_init = rng_pct(&R, 50);	/* a struct that was initialised once may be registered again as it is */
 	} else {
 		o = obj_new(K_FD);
 		if (o < 0)
@@ -487,7 +514,8 @@ static int fd_register(int c, int s, int reuse_o, int use_try, int hv[3])
 		memset(objs[o].p, 0xA5, sizeof(struct iv_fd));
 	}
 	f = objs[o].p;
-	IV_FD_INIT(f);
+	if (!skip_init)
+		IV_FD_INIT(f);
 	f->fd = chans[c].fd[s];
 	f->cookie = cookie_of(o);
 	f->handler_in = hfun(B_IN, hv[0]);
@@ -508,7 +536,7 @@ static int fd_register(int c, int s, int reuse_o, int use_try, int hv[3])
 		if (reuse_o < 0) { obj_free(o); }
 		return -1;
 	}
-	objs[o].registered = 1;
+	set_registered(o, 1);
 	objs[o].chan = c;
 	objs[o].side = s;
 	objs[o].osfd = f->fd;
@@ -567,6 +595,19 @@ static void fd_register_bad(void)
 	}
 	if (ret != 0 && iv_fd_registered(f))
 		mon_viol("C07", "failed-register-left-state", "registered-flag", "iv_fd_registered() is true after failed iv_fd_register_try");
+	if (ret != 0 && rng_pct(&R, 50)) {
+		/* the failed call left the loop and the struct as they were: use the same struct for a good descriptor */
+		int c, s, o, hv[3];
+		if (pick_free_end(&c, &s) == 0 && (o = obj_new(K_FD)) >= 0) {
+			hv[0] = f->handler_in ? 1 : 0;
+			hv[1] = f->handler_out ? 1 : 0;
+			hv[2] = 0;
+			objs[o].p = f;
+			if (fd_register(c, s, o, rng_pct(&R, 30), hv) < 0)
+				obj_free(o);
+			return;
+		}
+	}
 	free(f);		/* a failed registration leaves no reference: ASan checks that */
 	(void)before;
 }
@@ -611,11 +652,9 @@ static void pick_expiry(struct timespec *ts)
 	case 2:	e = now; break;							/* now */
 	case 3: case 4:								/* equal to an existing one */
 		e = now + 1000 * (int64_t)rng_n(&R, 3000);
-		for (i = 0; i < nobjs; i++)
-			if (objs[i].kind == K_TIMER && objs[i].registered && rng_pct(&R, 50)) {
-				e = ts_ns(&objs[i].expires);
-				break;
-			}
+		if (nreg[K_TIMER])
+			e = ts_ns(&objs[reglist[K_TIMER][rng_n(&R, nreg[K_TIMER])]].expires);
+		(void)i;
 		break;
 	case 5: case 6: case 7:
 		e = now + 1 + (int64_t)rng_n(&R, 5000000); break;			/* near: up to 5 ms */
@@ -646,7 +685,10 @@ static int timer_register(int reuse_o)
 	}
 	t = objs[o].p;
 	IV_TIMER_INIT(t);
-	pick_expiry(&t->expires);
+	if (pop_mode)
+		pop_expiry(&t->expires);
+	else
+		pick_expiry(&t->expires);
 	t->cookie = cookie_of(o);
 	t->handler = timer_cb;
 	objs[o].expires = t->expires;
@@ -656,9 +698,11 @@ static int timer_register(int reuse_o)
 	trace("treg(#%d,%+lldns) ", o, (long long)(ts_ns(&t->expires) - vt_now()));
 	th(30, o, (uint64_t)(ts_ns(&t->expires) - vt_now()));
 	iv_timer_register(t);
-	objs[o].registered = 1;
-	for (n = 0, i = 0; i < nobjs; i++)
-		n += objs[i].kind == K_TIMER && objs[i].registered;
+	set_registered(o, 1);
+	n = nreg[K_TIMER];
+	(void)i;
+	if (n > case_max_timers)
+		case_max_timers = n;
 	if ((uint64_t)n > S.max_timers)
 		S.max_timers = n;
 	return o;
@@ -682,13 +726,15 @@ static int task_register(int reuse_o)
 		IV_TASK_INIT(t);
 		t->cookie = cookie_of(o);
 		t->handler = task_cb;
+		if (in_task_handler)
+			objs[o].init_in_task_round = iter;
 	}
 	trace("taskreg(#%d%s) ", o, reuse_o >= 0 ? ",again" : "");
 	th(40, o, reuse_o >= 0);
 	if (reuse_o >= 0 && objs[o].ran_iter == iter)
 		nt_c06 = 1;
 	iv_task_register(t);
-	objs[o].registered = 1;
+	set_registered(o, 1);
 	return o;
 }
 
@@ -711,7 +757,7 @@ static int event_register(void)
 		obj_free(o);
 		return -1;
 	}
-	objs[o].registered = 1;
+	set_registered(o, 1);
 	return o;
 }
 
@@ -734,7 +780,7 @@ static int raw_register(void)
 		obj_free(o);
 		return -1;
 	}
-	objs[o].registered = 1;
+	set_registered(o, 1);
 	return o;
 }
 
@@ -763,7 +809,7 @@ static int sig_register(void)
 	}
 	objs[o].signum = s->signum;
 	objs[o].sigflags = s->flags;
-	objs[o].registered = 1;
+	set_registered(o, 1);
 	return o;
 }
 
@@ -772,9 +818,12 @@ static int pick_obj(int kind, int prefer_due)
 {
 	int cand[64], nc = 0, due[64], nd = 0, i;
 
-	for (i = 0; i < nobjs; i++) {
-		struct obj *ob = &objs[i];
-		if (ob->kind != kind || !ob->registered || ob->reaper)
+	int start = nreg[kind] > 64 ? (int)rng_n(&R, nreg[kind]) : 0, q;
+	for (q = 0; q < nreg[kind] && q < 64; q++) {
+		struct obj *ob;
+		i = reglist[kind][(start + q) % nreg[kind]];
+		ob = &objs[i];
+		if (ob->reaper)
 			continue;
 		if (nc < 64)
 			cand[nc++] = i;
@@ -812,6 +861,8 @@ static void stim_fn(void *v)
 		case 2:	chan_drain(a->c, a->s); break;
 		}
 	}
+	if (a->kind == 3)
+		vt_interrupt_wait();	/* a signal handler ran at this virtual instant: the kernel wait returns EINTR */
 	free(a);
 }
 
@@ -826,6 +877,124 @@ static void trigger_reap(void)
 }
 
 /* ------------------------------------------------------------------ */
+/* timer population histories (C05): a driver task walks the population through a list of target sizes */
+static int pop_targets[96], pop_ntargets, pop_tidx, pop_strategy;
+static int pop_newest = -1;
+static int64_t pop_equal[8];
+
+static void pop_expiry(struct timespec *ts)
+{
+	int64_t now = vt_now(), e;
+	unsigned r = rng_n(&R, 100);
+
+	if (r < 40)		e = now + 1000000 + (int64_t)(rng_u64(&R) % (100 * (uint64_t)VT_NS));
+	else if (r < 70)	e = pop_equal[rng_n(&R, 8)];
+	else if (r < 80)	e = now + VT_NS * (int64_t)(3600 + rng_n(&R, 100000));
+	else if (r < 90)	e = now + 1 + rng_n(&R, 1000000);
+	else			e = now - (int64_t)rng_n(&R, 1000000);
+	if (e < 0)
+		e = 0;
+	ts->tv_sec = e / VT_NS;
+	ts->tv_nsec = e % VT_NS;
+}
+
+static int timer_register(int reuse_o);
+static void obj_unreg(int o, int do_free);
+
+static int pop_victim(void)
+{
+	int n = nreg[K_TIMER], q, best = -1;
+
+	if (n == 0)
+		return -1;
+	switch (pop_strategy) {
+	case 0:		/* the earliest one (heap root), exact for small populations, sampled for large ones */
+		if (n <= 512) {
+			for (q = 0; q < n; q++)
+				if (best < 0 || ts_ns(&objs[reglist[K_TIMER][q]].expires) < ts_ns(&objs[best].expires))
+					best = reglist[K_TIMER][q];
+		} else {
+			for (q = 0; q < 64; q++) {
+				int c = reglist[K_TIMER][rng_n(&R, n)];
+				if (best < 0 || ts_ns(&objs[c].expires) < ts_ns(&objs[best].expires))
+					best = c;
+			}
+		}
+		return best;
+	case 1:		/* the newest one (often the last heap slot) */
+		if (pop_newest >= 0 && objs[pop_newest].registered)
+			return pop_newest;
+		return reglist[K_TIMER][n - 1];
+	case 2:		/* the oldest registration */
+		return reglist[K_TIMER][0];
+	default:	/* anything */
+		return reglist[K_TIMER][rng_n(&R, n)];
+	}
+}
+
+static int pop_step(void)
+{
+	int ops = 0;
+
+	while (ops < 96 && pop_tidx < pop_ntargets) {
+		int cur = nreg[K_TIMER], tgt = pop_targets[pop_tidx];
+		if (cur < tgt) {
+			pop_newest = timer_register(-1);
+			if (pop_newest < 0)
+				return 0;
+		} else if (cur > tgt) {
+			int v = pop_victim();
+			if (v < 0)
+				break;
+			obj_unreg(v, 1);
+		} else {
+			/* at the target: poke the boundary itself - a late timer lands in the last slot and is removed again */
+			if (rng_pct(&R, 60)) {
+				int o = timer_register(-1);
+				if (o >= 0) {
+					struct iv_timer *t = objs[o].p;
+					/* move it to the far future: unregister/re-register with a late expiry */
+					iv_timer_unregister(t);
+					t->expires.tv_sec += 10000000;
+					objs[o].expires = t->expires;
+					iv_timer_register(t);
+					if (rng_pct(&R, 70))
+						obj_unreg(o, 1);
+				}
+			}
+			pop_tidx++;
+			pop_strategy = rng_n(&R, 4);
+		}
+		ops++;
+	}
+	return pop_tidx < pop_ntargets;
+}
+
+static void pop_setup(void)
+{
+	int i, base, r = rng_n(&R, 100);
+
+	for (i = 0; i < 8; i++)
+		pop_equal[i] = vt_now() + 1000000 * (int64_t)(1 + rng_n(&R, 50000));
+	pop_ntargets = 0;
+	pop_tidx = 0;
+	pop_strategy = rng_n(&R, 4);
+	pop_newest = -1;
+	if (pop_big && r < 50)
+		base = 16384;
+	else if (pop_big && r < 60)
+		base = 20000 + rng_n(&R, 20000);
+	else if (r < 70)
+		base = 128;
+	else
+		base = 4 + rng_n(&R, 60);
+	pop_targets[pop_ntargets++] = base > 40 ? base - 1 - (int)rng_n(&R, 12) : base;
+	for (i = 0, r = 4 + rng_n(&R, 24); i < (int)r; i++)
+		pop_targets[pop_ntargets++] = base - 4 + (int)rng_n(&R, 9);
+	if (rng_pct(&R, 50))
+		pop_targets[pop_ntargets++] = rng_n(&R, base > 200 ? 200 : base);
+}
+
 /* the random action interpreter */
 enum {
 	A_FD_REG, A_FD_REGBAD, A_FD_UNREG, A_FD_SETH, A_CH_WRITE, A_CH_DRAIN, A_CH_FILL, A_CH_CLOSE,
@@ -997,9 +1166,9 @@ static void do_one_action(void)
 		if (o >= 0) {
 			int i;
 			trace("raise(%d) ", objs[o].signum); th(71, objs[o].signum, 0);
-			for (i = 0; i < nobjs; i++)
-				if (objs[i].kind == K_SIG && objs[i].registered && objs[i].signum == objs[o].signum)
-					objs[i].posts++;
+			for (i = 0; i < nreg[K_SIG]; i++)
+				if (objs[reglist[K_SIG][i]].signum == objs[o].signum)
+					objs[reglist[K_SIG][i]].posts++;
 			S.sig_raised++;
 			raise(objs[o].signum);
 		}
@@ -1045,7 +1214,7 @@ static void do_one_action(void)
 		if (nchans) {
 			struct stim_arg *sa = malloc(sizeof(*sa));
 			int64_t dt = rng_pct(&R, 60) ? rng_n(&R, 3000000) : rng_n(&R, 2000000000);
-			sa->kind = rng_pct(&R, 75) ? 0 : 1 + (int)rng_n(&R, 2);
+			sa->kind = rng_pct(&R, 65) ? 0 : 1 + (int)rng_n(&R, 3);
 			sa->c = rng_n(&R, nchans);
 			sa->s = rng_n(&R, 2);
 			sa->n = 1 + rng_n(&R, 100);
@@ -1096,6 +1265,7 @@ static void cb_exit(void)
 {
 	cb_depth--;
 	self_obj = -1;
+	in_task_handler = 0;
 }
 
 /* returns object index or -1 (violation already reported) */
@@ -1143,12 +1313,17 @@ static void fd_cb(void *cookie, int band, int variant)
 	ob->unserved_since[band] = -1;
 
 	if (ob->reaper) {
-		int i, order[MAXOBJ], n = 0;
+		static int order[MAXOBJ];
+		int i, n = 0;
 		chan_drain(ob->chan, ob->side);
 		winding = 2;
-		for (i = 0; i < nobjs; i++)
-			if (objs[i].registered)
-				order[n++] = i;
+		{
+			int k, q;
+			for (k = 0; k < K_NKIND; k++)
+				for (q = 0; q < nreg[k]; q++)
+					order[n++] = reglist[k][q];
+		}
+		(void)i;
 		while (n > 0) {
 			int k = rng_n(&R, n);
 			obj_unreg(order[k], 1);
@@ -1182,7 +1357,7 @@ static void timer_cb(void *cookie)
 	int o = check_cookie(cookie, K_TIMER, "timer");
 	struct obj *ob;
 	struct timespec now;
-	int i;
+	int i, q;
 
 	cb_enter(K_TIMER, o);
 	if (o < 0)
@@ -1208,20 +1383,33 @@ static void timer_cb(void *cookie)
 	if (iv_timer_registered(ob->p))
 		mon_viol("C04", "timer-still-registered", "timer", "iv_timer_registered() is true inside the handler of timer #%d", o);
 	/* C05: no strictly earlier timer, registered before this round began, may still be waiting */
-	for (i = 0; i < nobjs; i++) {
-		struct obj *t2 = &objs[i];
-		if (i == o || t2->kind != K_TIMER || !t2->registered || t2->fired)
+	for (q = 0; q < nreg[K_TIMER]; q++) {
+		struct obj *t2;
+		i = reglist[K_TIMER][q];
+		t2 = &objs[i];
+		if (i == o || t2->fired)
 			continue;
 		if (t2->reg_seq < round_start_seq && ts_ns(&t2->expires) < ts_ns(&ob->expires))
 			mon_viol("C05", "timer-order", "timer", "timer #%d (expiry %lld) fired while timer #%d with earlier expiry %lld, registered before the round, is still waiting",
 				 o, (long long)ts_ns(&ob->expires), i, (long long)ts_ns(&t2->expires));
 	}
 	ob->fired = 1;
-	ob->registered = 0;	/* one-shot: already unregistered on entry */
+	set_registered(o, 0);	/* one-shot: already unregistered on entry */
 	ob->gen++;
 
 	if (winding) {
 		obj_free(o);
+		goto out;
+	}
+	if (pop_mode) {
+		unsigned r = rng_n(&R, 100);
+		if (r < 8) {
+			timer_register(o);		/* re-arm the same struct from its handler */
+		} else {
+			obj_free(o);
+			if (r < 16 && nreg[K_TIMER] > 0)
+				obj_unreg(reglist[K_TIMER][rng_n(&R, nreg[K_TIMER])], 1);	/* another, possibly expired, timer */
+		}
 		goto out;
 	}
 	switch (rng_n(&R, 4)) {
@@ -1260,11 +1448,22 @@ static void task_cb(void *cookie)
 		mon_viol("C06", "task-still-registered", "task", "iv_task_registered() is true inside the handler of task #%d", o);
 	if (ob->ran_iter == iter)
 		mon_viol("C06", "task-twice-between-polls", "task", "task #%d ran twice between two kernel polls (iteration %ld)", o, iter);
+	if (ob->init_in_task_round == iter)
+		mon_viol("C06", "task-chain-not-deferred", "task",
+			 "task #%d was initialised and registered by a task handler of the current round and ran before the next kernel poll: a chain of such tasks keeps the loop from polling", o);
+	in_task_handler = 1;
 	ob->ran_iter = iter;
-	ob->registered = 0;
+	set_registered(o, 0);
 	ob->gen++;
 	if (winding) {
 		obj_free(o);
+		goto out;
+	}
+	if (ob->driver) {
+		if (pop_step())
+			task_register(o);
+		else
+			obj_free(o);
 		goto out;
 	}
 	switch (rng_n(&R, 5)) {
@@ -1281,7 +1480,7 @@ static void task_cb(void *cookie)
 	case 3:		/* re-register another task that already ran this round */
 		{
 			int i;
-			for (i = 0; i < nobjs; i++)
+			for (i = nobjs > 256 ? nobjs - 256 : 0; i < nobjs; i++)
 				if (objs[i].kind == K_TASK && !objs[i].registered && objs[i].p != NULL && i != o && objs[i].ran_iter == iter) {
 					task_register(i);
 					break;
@@ -1380,15 +1579,15 @@ static int rk_nonempty;
 
 static void iteration_end_checks(void)
 {
-	int i, b;
+	int i, b, q;
 
 	if (iter < 0)
 		return;
 	/* C02-B: everything the kernel reported for a wanted band was dispatched or excused */
-	for (i = 0; i < nobjs; i++) {
-		struct obj *ob = &objs[i];
-		if (ob->kind != K_FD || !ob->registered)
-			continue;
+	for (q = 0; q < nreg[K_FD]; q++) {
+		struct obj *ob;
+		i = reglist[K_FD][q];
+		ob = &objs[i];
 		for (b = 0; b < 3; b++) {
 			if (ob->must_enter_iter[b] != iter)
 				continue;
@@ -1418,7 +1617,7 @@ static void iteration_end_checks(void)
 
 void hk_wait_enter(struct vt_wait *w)
 {
-	int i, b, ntasks = 0, limit;
+	int i, b, q, ntasks = 0, limit;
 	int64_t E = VT_INF, V = w->v_enter;
 	int nsh;
 
@@ -1459,41 +1658,38 @@ void hk_wait_enter(struct vt_wait *w)
 
 	rk_nonempty = 0;
 	limit = g_is_epoll ? 3 : 1;
-	for (i = 0; i < nobjs; i++) {
-		struct obj *ob = &objs[i];
-		if (!ob->registered)
-			continue;
-		switch (ob->kind) {
-		case K_FD:
-			for (b = 0; b < 3; b++) {
-				if (ob->hvar[b] && band_cond(snapE[ob->osfd], b)) {
-					rk_nonempty = 1;
-					if (ob->unserved_since[b] < 0)
-						ob->unserved_since[b] = iter;
-					else if (iter - ob->unserved_since[b] >= limit + vt_fault_fired())
-						mon_viol("C02", "starved", bname[b],
-							 "fd #%d (descriptor %d) band %s has been wanted and ready (revents 0x%x) since iteration %ld and was not served by iteration %ld",
-							 i, ob->osfd, bname[b], snapE[ob->osfd], ob->unserved_since[b], iter);
-				} else {
-					ob->unserved_since[b] = -1;
-				}
+	for (q = 0; q < nreg[K_FD]; q++) {
+		struct obj *ob;
+		i = reglist[K_FD][q];
+		ob = &objs[i];
+		for (b = 0; b < 3; b++) {
+			if (ob->hvar[b] && band_cond(snapE[ob->osfd], b)) {
+				rk_nonempty = 1;
+				if (ob->unserved_since[b] < 0)
+					ob->unserved_since[b] = iter;
+				else if (iter - ob->unserved_since[b] >= limit + (long)vt_fault_fired() + eintr_natural)
+					mon_viol("C02", "starved", bname[b],
+						 "fd #%d (descriptor %d) band %s has been wanted and ready (revents 0x%x) since iteration %ld and was not served by iteration %ld",
+						 i, ob->osfd, bname[b], snapE[ob->osfd], ob->unserved_since[b], iter);
+			} else {
+				ob->unserved_since[b] = -1;
 			}
-			break;
-		case K_TIMER:
-			if (ts_ns(&ob->expires) < E)
-				E = ts_ns(&ob->expires);
-			if (ts_ns(&ob->expires) <= V) {
-				if (ob->due_seen_iter < 0)
-					ob->due_seen_iter = iter;
-				else if (iter - ob->due_seen_iter >= 2 + (long)vt_fault_fired())
-					mon_viol("C05", "timer-not-prompt", "timer", "timer #%d was due at wait %ld and has still not fired at wait %ld", i, ob->due_seen_iter, iter);
-			}
-			break;
-		case K_TASK:
-			ntasks++;
-			break;
 		}
 	}
+	for (q = 0; q < nreg[K_TIMER]; q++) {
+		struct obj *ob;
+		i = reglist[K_TIMER][q];
+		ob = &objs[i];
+		if (ts_ns(&ob->expires) < E)
+			E = ts_ns(&ob->expires);
+		if (ts_ns(&ob->expires) <= V) {
+			if (ob->due_seen_iter < 0)
+				ob->due_seen_iter = iter;
+			else if (iter - ob->due_seen_iter >= 2 + (long)vt_fault_fired() + eintr_natural)
+				mon_viol("C05", "timer-not-prompt", "timer", "timer #%d was due at wait %ld and has still not fired at wait %ld", i, ob->due_seen_iter, iter);
+		}
+	}
+	ntasks = nreg[K_TASK];
 	if (rk_nonempty)
 		S.rk_nonempty++;
 
@@ -1503,20 +1699,30 @@ void hk_wait_enter(struct vt_wait *w)
 		S.deadline_checks++;
 		if (w->ms_granular)
 			lim += 999999;
-		if (w->deadline > lim)
+		if (w->deadline > lim) {
 			mon_viol("C04", "oversleep", g_method,
 				 "wake deadline %lld lies beyond the earliest timer expiry %lld (now %lld, requested time-out %lld ns, %s)",
 				 (long long)w->deadline, (long long)E, (long long)V, (long long)w->timeout_ns,
 				 w->timeout_ns < 0 ? "infinite wait" : "timed wait");
+			mon_viol("C07", "blocks-while-timer-due", g_method,
+				 "the loop will stay blocked until %lld although a timer is due at %lld (now %lld)",
+				 (long long)w->deadline, (long long)E, (long long)V);
+			mon_viol("C05", "oversleep", g_method,
+				 "the wait deadline %lld ignores the earliest registered expiry %lld: another timer decides when this one fires",
+				 (long long)w->deadline, (long long)E);
+		}
 		if (w->timeout_ns < 0) {
 			if (!tfd_engaged) { tfd_engaged = 1; S.tfd_engaged_cases++; }
 			nt_c04 = 1;
 		}
 	}
 	/* C06: with a task pending the loop must not sleep */
-	if (ntasks && w->deadline > V)
+	if (ntasks && w->deadline > V) {
 		mon_viol("C06", "sleep-with-task-pending", g_method, "%d task(s) registered but the wake deadline %lld is after now %lld (time-out %lld ns)",
 			 ntasks, (long long)w->deadline, (long long)V, (long long)w->timeout_ns);
+		mon_viol("C07", "blocks-while-task-pending", g_method, "%d task(s) registered but the loop blocks until %lld (now %lld)",
+			 ntasks, (long long)w->deadline, (long long)V);
+	}
 	last_wait_timeout_zero = (w->timeout_ns == 0);
 }
 
@@ -1524,14 +1730,14 @@ void hk_wait_block(struct vt_wait *w);
 void hk_wait_block(struct vt_wait *w)
 {
 	/* the zero-time-out probe found nothing and the loop is going to sleep */
-	int i, b;
+	int i, b, q;
 	(void)w;
 	if (!rk_nonempty)
 		return;
-	for (i = 0; i < nobjs; i++) {
-		struct obj *ob = &objs[i];
-		if (ob->kind != K_FD || !ob->registered)
-			continue;
+	for (q = 0; q < nreg[K_FD]; q++) {
+		struct obj *ob;
+		i = reglist[K_FD][q];
+		ob = &objs[i];
 		for (b = 0; b < 3; b++)
 			if (ob->hvar[b] && band_cond(snapE[ob->osfd], b)) {
 				mon_viol("C02", "sleep-on-ready", bname[b],
@@ -1547,10 +1753,10 @@ void hk_wait_block(struct vt_wait *w)
 
 static int ptr_to_fdobj(void *p)
 {
-	int i;
-	for (i = 0; i < nobjs; i++)
-		if (objs[i].kind == K_FD && objs[i].registered && objs[i].p == p)
-			return i;
+	int q;
+	for (q = 0; q < nreg[K_FD]; q++)
+		if (objs[reglist[K_FD][q]].p == p)
+			return reglist[K_FD][q];
 	return -1;
 }
 
@@ -1579,6 +1785,8 @@ void hk_wait_return(struct vt_wait *w)
 	last_wait_ret_events = w->ret > 0 ? w->ret : 0;
 	if (w->ret < 0) {
 		eintr_this_iter = 1;
+		eintr_natural++;
+		S.eintr_seen++;
 		return;
 	}
 	snapshot(snapS);
@@ -1694,22 +1902,25 @@ static void run_case(long id)
 
 	mon_case_id = id;
 	mon_viol_case = 0;
+	mon_watchdog(30);
 	rng_seed(&R, g_seed, (uint64_t)id);
 	vt_reset_case(mix64(g_seed ^ (uint64_t)id * 7919));
 	vt_set_single(1);
 
 	nobjs = 0; nchans = 0;
+	memset(nreg, 0, sizeof(nreg)); nreg_total = 0;
 	memset(fd2chan, -1, sizeof(fd2chan));
 	iter = -1; in_main = 0; cb_depth = 0; in_wait = 0; quit_requested = 0;
 	cb_total = 0; cb_this_iter = 0; winding = 0; reap_triggered = 0; reaper_obj = -1;
 	trace_hash = 0x1234; round_start_iter = -1; stim_applied_iter = 0;
-	spin_events = spin_zero = 0; empty_shadow_waits = 0; eintr_this_iter = 0;
+	spin_events = spin_zero = 0; empty_shadow_waits = 0; eintr_this_iter = 0; eintr_natural = 0; case_max_timers = 0;
 	last_wait_ret_events = 0; last_wait_timeout_zero = 0;
 	nt_c01 = nt_c02 = nt_c03 = nt_c04 = nt_c05 = nt_c06 = nt_c07 = 0; tfd_engaged = 0;
 	self_obj = -1;
 	sample_len = 0;
 	enabled_mask = swarm_mask();
 	budget = g_budget_base / 2 + rng_n(&R, g_budget_base * 2);
+	pop_mode = rng_pct(&R, !strcmp(g_focus, "C05") ? 60 : !strcmp(g_focus, "C04") ? 15 : 3);
 	kicks_left = rng_n(&R, 40);
 
 	iv_init();
@@ -1723,6 +1934,21 @@ static void run_case(long id)
 
 	trace("setup: ");
 	ninit = 1 + rng_n(&R, 24);
+	if (pop_mode) {
+		int o, mx = 0;
+		pop_setup();
+		for (i = 0; i < pop_ntargets; i++)
+			if (pop_targets[i] > mx)
+				mx = pop_targets[i];
+		budget = 6 * mx + 4000;
+		enabled_mask = (1u << A_BURN) | (1u << A_CH_WRITE);
+		ninit = rng_n(&R, 3);
+		o = task_register(-1);
+		objs[o].driver = 1;
+		nt_c05 = 1;
+		S.pop_cases++;
+		trace("population(targets %d.. n=%d) ", pop_targets[0], pop_ntargets);
+	}
 	{
 		int save = winding;
 		for (i = 0; i < ninit; i++)
@@ -1752,9 +1978,12 @@ static void run_case(long id)
 
 	/* clean up from outside the loop */
 	winding = 2;
-	for (i = 0; i < nobjs; i++)
-		if (objs[i].registered)
-			obj_unreg(i, 1);
+	{
+		int k;
+		for (k = 0; k < K_NKIND; k++)
+			while (nreg[k] > 0)
+				obj_unreg(reglist[k][nreg[k] - 1], 1);
+	}
 	for (i = 0; i < nobjs; i++)
 		obj_free(i);
 	iv_deinit();
@@ -1792,7 +2021,8 @@ static void run_case(long id)
 	if (nt_c02) { S.nt[2]++; sig_add(2, prop_sig); }
 	if (nt_c03) { S.nt[3]++; sig_add(3, prop_sig); }
 	if (nt_c04) { S.nt[4]++; sig_add(4, prop_sig); }
-	if (S.max_timers >= 2) { nt_c05 = 1; }
+	if (case_max_timers >= 2) { nt_c05 = 1; }
+	if (pop_mode && (uint64_t)case_max_timers > S.pop_max) S.pop_max = case_max_timers;
 	if (nt_c05) { S.nt[5]++; sig_add(5, prop_sig); }
 	if (nt_c06) { S.nt[6]++; sig_add(6, prop_sig); }
 	if (nt_c07) { S.nt[7]++; sig_add(7, prop_sig); }
@@ -1805,6 +2035,8 @@ static void run_case(long id)
 	}
 }
 
+static void noop_handler(int s) { (void)s; }
+
 int main(int argc, char **argv)
 {
 	long first = arg_ll(argc, argv, "--first", 0), n = arg_ll(argc, argv, "--cases", 100), i;
@@ -1815,9 +2047,18 @@ int main(int argc, char **argv)
 	g_budget_base = (int)arg_ll(argc, argv, "--budget", 120);
 	sample_left = (int)arg_ll(argc, argv, "--samples", 1);
 
+	pop_big = (int)arg_ll(argc, argv, "--big", 0);
+	for (k = 0; k < K_NKIND; k++)
+		reglist[k] = malloc(sizeof(int) * MAXOBJ);
 	vt_init();
 	iv_set_fatal_msg_handler(fatal_msg);
 	signal(SIGPIPE, SIG_IGN);
+	{
+		struct sigaction sa;
+		memset(&sa, 0, sizeof(sa));
+		sa.sa_handler = noop_handler;
+		sigaction(SIGWINCH, &sa, NULL);
+	}
 
 	/* a descriptor number that is guaranteed closed, and a regular file */
 	dead_fd = 1000;
@@ -1849,7 +2090,7 @@ int main(int argc, char **argv)
 		   "unreg_of_due=%llu handler_changes=%llu reinstall_while_ready=%llu tfd_engaged_cases=%llu multi_timer_iters=%llu "
 		   "failed_reg=%llu quits=%llu reenters=%llu deadline_checks=%llu rk_nonempty=%llu b_obligations=%llu eintr_seen=%llu "
 		   "sig_raised=%llu ev_posts=%llu raw_posts=%llu actions=%llu frees_in_handler=%llu struct_reuse=%llu hyg_checks=%llu "
-		   "stim_applied=%llu quiescences=%llu time_advances=%llu timerfd_fires=%llu injected=%llu violations=%d\n",
+		   "stim_applied=%llu pop_cases=%llu pop_max=%llu max_timers=%llu quiescences=%llu time_advances=%llu timerfd_fires=%llu injected=%llu violations=%d\n",
 		   g_method, (unsigned long long)S.cases, (unsigned long long)S.waits,
 		   (unsigned long long)S.cb[K_FD], (unsigned long long)S.cb[K_TIMER], (unsigned long long)S.cb[K_TASK],
 		   (unsigned long long)S.cb[K_EVENT], (unsigned long long)S.cb[K_RAW], (unsigned long long)S.cb[K_SIG],
@@ -1862,6 +2103,7 @@ int main(int argc, char **argv)
 		   (unsigned long long)S.sig_raised, (unsigned long long)S.ev_posts, (unsigned long long)S.raw_posts,
 		   (unsigned long long)S.actions, (unsigned long long)S.frees_in_handler, (unsigned long long)S.struct_reuse,
 		   (unsigned long long)S.hyg_checks, (unsigned long long)S.stim_applied,
+		   (unsigned long long)S.pop_cases, (unsigned long long)S.pop_max, (unsigned long long)S.max_timers,
 		   (unsigned long long)vt_stats.quiescences, (unsigned long long)vt_stats.time_advances,
 		   (unsigned long long)vt_stats.timerfd_fires, (unsigned long long)vt_stats.injected, mon_viol_total);
 	for (k = 0; k < 8; k++)
